@@ -133,4 +133,115 @@ example : growN 1000 3 100 = 800 := by decide
 example : growN 1000 4 100 = 1000 := by decide
 example : grow 0 100 = 100 := by decide
 
+/-! ### the retry queue stays small: the others keep their turn -/
+
+/-- the (topic, partition) keys a list of reply partitions stands for under the consumer's assignments -/
+def tpsOf (c : Consumer) (parts : List (Bytes × FetchPartition)) : List TP :=
+  parts.filterMap fun x => (topicRef c.assignments x.1).map fun tr => (⟨tr, x.2.partition⟩ : TP)
+
+/-- the book-keeping of one partition leaves the assignments alone and touches the retry queue at most by appending
+    that partition -/
+theorem processPartition_retry (normalMax : Int) (n : Nat) (single : Bool) (c c' : Consumer) (tr : Nat) (p : FetchPartition) (got : Bool)
+    (h : processPartition normalMax n single c tr p = (.ok c', got)) :
+    c'.assignments = c.assignments ∧ (c'.retry = c.retry ∨ c'.retry = c.retry ++ [⟨tr, p.partition⟩]) := by
+  unfold processPartition at h
+  cases hd : p.data with
+  | error code => simp [hd] at h
+  | ok v =>
+    obtain ⟨hw, msgs⟩ := v
+    simp only [hd] at h
+    cases hf : assocGet c.fetchOffsets (⟨tr, p.partition⟩ : TP) with
+    | none => simp [hf] at h
+    | some fs =>
+      simp only [hf] at h
+      cases hl : msgs.getLast? with
+      | some last =>
+        simp only [hl] at h
+        have := (Prod.mk.inj h).1
+        injection this with hc
+        subst hc
+        exact ⟨rfl, Or.inl rfl⟩
+      | none =>
+        simp only [hl] at h
+        by_cases h1 : fs.offset < hw
+        · simp only [h1, if_true] at h
+          by_cases h2 : fs.maxBytes < c.retryLimit
+          · simp only [h2, if_true] at h
+            have := (Prod.mk.inj h).1
+            injection this with hc
+            subst hc
+            cases single <;> simp
+          · simp only [h2, if_false] at h
+            by_cases h3 : n = 1
+            · simp [h3] at h
+            · simp only [h3, if_false] at h
+              have := (Prod.mk.inj h).1
+              injection this with hc
+              subst hc
+              cases single <;> simp
+        · simp only [h1, if_false] at h
+          have := (Prod.mk.inj h).1
+          injection this with hc
+          subst hc
+          exact ⟨rfl, Or.inl rfl⟩
+
+/-- over a whole reply: what is appended to the retry queue is a sub-list, in reply order, of the partitions the reply lists -/
+theorem processAll_retry (normalMax : Int) (n : Nat) (single : Bool) :
+    ∀ (parts : List (Bytes × FetchPartition)) (c : Consumer) (ne : Bool) (c' : Consumer) (ne' : Bool),
+      processAll normalMax n single parts c ne = (.ok c', ne') →
+      c'.assignments = c.assignments ∧ ∃ added, c'.retry = c.retry ++ added ∧ added.Sublist (tpsOf c parts) := by
+  intro parts
+  induction parts with
+  | nil =>
+    intro c ne c' ne' h
+    simp only [processAll] at h
+    have := (Prod.mk.inj h).1
+    injection this with hc
+    subst hc
+    exact ⟨rfl, [], by simp, by simp [tpsOf]⟩
+  | cons x r ih =>
+    intro c ne c' ne' h
+    obtain ⟨t, p⟩ := x
+    simp only [processAll] at h
+    cases htr : topicRef c.assignments t with
+    | none => simp [htr] at h
+    | some tr =>
+      simp only [htr] at h
+      cases hpp : processPartition normalMax n single c tr p with
+      | mk o got =>
+        cases o with
+        | ok c1 =>
+          simp only [hpp] at h
+          obtain ⟨ha1, hr1⟩ := processPartition_retry normalMax n single c c1 tr p got hpp
+          obtain ⟨ha2, added, hr2, hsub⟩ := ih c1 (ne || got) c' ne' h
+          refine ⟨ha2.trans ha1, ?_⟩
+          have htps : tpsOf c ((t, p) :: r) = ⟨tr, p.partition⟩ :: tpsOf c1 r := by
+            simp [tpsOf, htr, ha1]
+          rcases hr1 with hr1 | hr1
+          · exact ⟨added, by rw [hr2, hr1], by rw [htps]; exact hsub.cons _⟩
+          · exact ⟨⟨tr, p.partition⟩ :: added, by rw [hr2, hr1]; simp, by rw [htps]; exact hsub.cons₂ _⟩
+        | err e => simp [hpp] at h
+        | panic s => simp [hpp] at h
+        | diverge => simp [hpp] at h
+
+/-- **the retry queue never holds a partition twice and never more partitions than a reply can list**: with replies that
+    list no partition twice and nothing that already waits, a queue without repetitions stays without repetitions, and grows
+    by at most the number of partitions in the reply — so it drains within that many polls and the fetch of every partition
+    comes round again -/
+theorem C17_queue_bounded (normalMax : Int) (n : Nat) (single : Bool) (parts : List (Bytes × FetchPartition))
+    (c c' : Consumer) (ne ne' : Bool) (h : processAll normalMax n single parts c ne = (.ok c', ne'))
+    (hq : c.retry.Nodup) (hp : (tpsOf c parts).Nodup) (hdis : ∀ tp ∈ tpsOf c parts, tp ∉ c.retry) :
+    c'.retry.Nodup ∧ c'.retry.length ≤ c.retry.length + parts.length := by
+  obtain ⟨_, added, hr, hsub⟩ := processAll_retry normalMax n single parts c ne c' ne' h
+  rw [hr]
+  constructor
+  · rw [List.nodup_append]
+    refine ⟨hq, hsub.nodup hp, ?_⟩
+    intro a ha b hb hab
+    subst hab
+    exact hdis a (hsub.subset hb) ha
+  · have h1 := hsub.length_le
+    have h2 : (tpsOf c parts).length ≤ parts.length := by unfold tpsOf; exact List.length_filterMap_le _ _
+    simp only [List.length_append]; omega
+
 end Kafka.Props.C17
